@@ -1194,7 +1194,18 @@ def _create_dataclass_instance(
                 # Break, and return the instance.
                 break
         else:
-            logger.debug(f"All fields for {wrapper.dest} were either at their default, or None.")
-            return None
+            # A nested member that is `None` by default too and that was created anyway also means that an
+            # argument was passed (for one of its fields).
+            if not any(
+                child.optional
+                and child.default is None
+                and all(default in (None, argparse.SUPPRESS) for default in child.defaults)
+                and constructor_args.get(child.name) is not None
+                for child in wrapper._children
+            ):
+                logger.debug(
+                    f"All fields for {wrapper.dest} were either at their default, or None."
+                )
+                return None
     logger.debug(f"Calling constructor: {constructor}(**{constructor_args})")
     return constructor(**constructor_args)
